@@ -29,3 +29,41 @@ def drawAt (d i : Nat) : Nat × Nat :=
 def draw (d r : Nat) : Nat × Nat := drawAt d (r % popW 64 d)
 
 end RP.Deck
+
+namespace RP.Deck
+open RP.Bits
+
+/-- successive `Deck::draw`s on one kept deck (`Deck::hole`, `Deck::deal`, several streets from the
+    same deck) with raw random values `rs`: `none` when a draw meets an empty deck (the real
+    `gen_range(0..0)` panics), else (cards in draw order, remaining deck) -/
+def drawMany : Nat → List Nat → Option (List Nat × Nat)
+  | d, [] => some ([], d)
+  | d, r :: rs =>
+    if popW 64 d = 0 then none else
+      match drawMany (draw d r).2 rs with
+      | none => none
+      | some (cs, d') => some ((draw d r).1 :: cs, d')
+
+/-- the `Hand` of a list of cards (`Hand::add` fold) -/
+def handOf (cs : List Nat) : Nat := cs.foldl (fun h c => h ||| (1 <<< c)) 0
+
+/-- `Street::n_revealed`: cards dealt by `Deck::deal(street)` (0 = pre-flop → the flop) -/
+def dealSize : Nat → Nat
+  | 0 => 3
+  | 1 => 1
+  | 2 => 1
+  | _ => 0
+
+/-- a dealer keeping one deck for a whole hand: `hole(); hole(); deal(Pref); deal(Flop); deal(Turn)`
+    with the same raw value `r` for every draw: the five dealt hands and the remaining deck -/
+def dealRun (d r : Nat) : Option (List Nat × Nat) :=
+  let step (acc : Option (List Nat × Nat)) (k : Nat) : Option (List Nat × Nat) :=
+    match acc with
+    | none => none
+    | some (hs, d) =>
+      match drawMany d (List.replicate k r) with
+      | none => none
+      | some (cs, d') => some (hs ++ [handOf cs], d')
+  [2, 2, dealSize 0, dealSize 1, dealSize 2].foldl step (some ([], d))
+
+end RP.Deck
